@@ -74,6 +74,14 @@ POOL = [
     ("unicode", {"__tag": "é中\U0001F600 z"}),
     ("unknown_field", {"zz": 1}),
     ("nan_into_long", {"v": float("nan")}),
+    # long strings (column statistics are kept per file and used for pruning): the character at index P is the one a
+    # prefix-truncating statistic would cut at. Appended at the END of the pool so that earlier plans keep their meaning.
+    ("long_bmp_40", {"__tagpad": [36, "z"]}),
+    ("long_nonbmp_at_16", {"__tagpad": [16, "\U0001F600"]}),
+    ("long_nonbmp_at_32", {"__tagpad": [32, "\U0001F600"]}),
+    ("long_nonbmp_at_64", {"__tagpad": [64, "\U0010FFFF"]}),
+    ("long_uffff_at_32", {"__tagpad": [32, "\uffff\uffff"]}),
+    ("long_200", {"__tagpad": [200, "\u00e9"]}),
 ]
 
 
@@ -180,7 +188,8 @@ def gen(rng: random.Random, tier: str, idx: int) -> dict:
                 classes = [names.index(rng.choice(["double_integral", "plain"])), names.index("nan_double")]
             if rng.random() < 0.5:
                 classes = [0] + [c for c in classes if POOL[c][0] in ("plain", "nulls", "absent", "unicode", "int_min",
-                                                                       "int_max", "nan_double", "int_into_double")]
+                                                                       "int_max", "nan_double", "int_into_double")
+                                 or POOL[c][0].startswith("long_")]
             steps.append({"kind": "records", "variant": rng.choice(VARIANTS if rng.random() < 0.7 else ["omitted", "identical"]),
                           "fresh": rng.random() < 0.5, "rows": classes})
     return {"backend": backend, "steps": steps}
@@ -210,6 +219,9 @@ def mk_row(step: int, k: int, cls: int) -> dict:
     for key, val in part.items():
         if key == "__tag":
             row["tag"] = val
+        elif key == "__tagpad":
+            p, ch = val
+            row["tag"] = (f"s{step}.{k}." + "k" * p)[:p] + ch + "-tail"
         else:
             row[key] = val
     return row
@@ -602,9 +614,14 @@ def execute(plan: dict, scratch: str, replay: Optional[dict] = None) -> dict:
                     bad("E.rows_differ", f"{desc}: scan() through the {hname} handle returns {len(got)} rows that differ from the "
                                          f"{len(model_rows)} accepted rows", f"{vclass}|{rclasses}")
                     return
+            # every string just accepted must stay findable by equality / range / membership (file pruning by column
+            # statistics must not hide it)
+            tags = [r["tag"] for r in rows if isinstance(r.get("tag"), str)][:3] if st["kind"] == "records" else []
+            tag_probes = tuple((("tag", o, (tg if o != "in" else [tg])) for tg in tags for o in ("==", ">=", "in", ">"))) \
+                if any(len(tg) > 12 for tg in tags) else ()
             for col, op, val in (("v", ">=", 0), ("tag", "==", rows[0]["tag"] if st["kind"] == "records" and isinstance(rows[0].get("tag"), str) else "zz"),
                                  ("x", "is_not_null", True), ("i", ">=", -5), ("f", "is_not_null", True),
-                                 ("x", "!=", 1.5), ("x", "!=", 3), ("f", "in", [0.1, 0.5]), ("f", ">", 0.1), ("f", "<", 0.5000001)):
+                                 ("x", "!=", 1.5), ("x", "!=", 3), ("f", "in", [0.1, 0.5]), ("f", ">", 0.1), ("f", "<", 0.5000001)) + tag_probes:
                 flt = {col: val} if op == "==" else {col: (op, val)}
                 try:
                     got = sorted((ir.row_key(r) for r in t.scan(filter=flt)), key=repr)
